@@ -26,6 +26,10 @@ def run(pid, tier):
     scen = pc.gen(rep, 'C06', dict(MaxUnits=n), nparts=14)
     obs = pc.execute(rep, scen, 'default', 'C06')
     pc.validate(rep, 'C06', scen, obs, 'C06-default', kindfn=kind)
+    # the flush callback is optional: without it (and without the other optional callbacks) the bytes written are the same
+    sub = scen[::5]
+    obs2 = pc.execute(rep, sub, 'default', 'C06nullcb', env={'DRV_NULL_CALLBACKS': '1'})
+    pc.validate(rep, 'C06', sub, obs2, 'C06-null-callbacks', kindfn=kind, fields={'out'})
     suite_traces.validate(rep, 'C06:')
     composition.validate(rep, 'C06', tier)   # random messages of a minimal instrument against Scpi.tla      # hook traces of the repository's own test programs
     nt = [s for s in scen if nontrivial(s)]
